@@ -45,6 +45,12 @@ from crosshair.util import IgnoreAttempt, NotDeterministic, UnexploredPath
 # apischema.recursion (fresh dict per call).  Every cached function of apischema is
 # keyed by concrete types/options, so keeping the real cache is sound here.
 _PATCH_REGISTRATIONS.pop(functools._lru_cache_wrapper.__call__, None)
+# CrossHair's getattr / hasattr / setattr patches run the real builtin under NoTracing (they
+# exist for symbolic attribute *names*, which we never use): a property or __setattr__
+# reached through them would execute untraced ("Numeric operation on symbolic while not
+# tracing").  apischema calls getattr(obj, name) for every serialized field.
+for _f in (getattr, hasattr, setattr):
+    _PATCH_REGISTRATIONS.pop(_f, None)
 
 sys.setrecursionlimit(max(sys.getrecursionlimit(), 3000))
 
@@ -347,6 +353,9 @@ def explore(
                     res.tags[k[4:]] = res.tags.get(k[4:], 0) + 1
         elif status == VerificationStatus.REFUTED:
             res.refuted += 1
+            for k, v in ctx.notes.items():
+                if k.startswith("tag:") and v is True:
+                    res.tags[k[4:]] = res.tags.get(k[4:], 0) + 1
             key = (fail_rec["kind"], repr(fail_rec["witness"]))
             if key not in seen_fail:
                 seen_fail.add(key)
